@@ -336,6 +336,20 @@ func (x *Exec) evalIndex(st *State, base Value, idx Value) Value {
 		return x.load(st, Ptr{Obj: b.Obj, Path: append(append([]Sel(nil), b.Path...), Sel{Field: -1, Idx: bvbin("bvadd", b.Off, ix)})})
 	case Ptr:
 		return x.readPath(x.load(st, b), []Sel{{Field: -1, Idx: ix}})
+	case Sc:
+		// a value of an SMT array sort (lemma parameter or arr(...))
+		es := ""
+		switch {
+		case b.Sort == "MvArr":
+			es = bvSort(16)
+		case b.Sort == "HashArr":
+			es = bvSort(64)
+		case strings.HasPrefix(b.Sort, "(Array (_ BitVec 64) "):
+			es = arrayElemSort(b.Sort)
+		}
+		if es != "" {
+			return Sc{T: T{"(select " + b.S + " " + ix.S + ")", es}}
+		}
 	}
 	bail("cannot index %T", base)
 	return nil
@@ -698,6 +712,14 @@ func (x *Exec) evalCall(fr *frame, st *State, n *ast.CallExpr, opts *evalOpts) V
 		return acc
 	case "arr":
 		// arr(s): the SMT array holding the elements of a slice of scalars (element i of s is arr(s)[off(s)+i])
+		if bg0, isBig := arg(0).(Big); isBig {
+			// a large fixed-size array of scalars: its SMT array
+			leaf, ok := bg0.Elem.(Sc)
+			if !ok {
+				bail("arr(a): elements are not scalars")
+			}
+			return leaf
+		}
 		sl, ok := arg(0).(Slc)
 		if !ok || sl.Nil {
 			bail("arr(s): s must be a non-nil slice")
@@ -785,6 +807,69 @@ func (x *Exec) evalCall(fr *frame, st *State, n *ast.CallExpr, opts *evalOpts) V
 			conj = append(conj, x.asBool(x.evalExpr(fr, st, n.Args[3], &o2)))
 		}
 		return Sc{T: mkAnd(conj...)}
+	case "forall":
+		// forall(j, lo, hi, body): body holds for every j with lo <= j < hi (bounds may be symbolic).
+		// As a proof goal it is proved for one arbitrary j; elsewhere it becomes an SMT quantifier.
+		id, ok := n.Args[0].(*ast.Ident)
+		if !ok || len(n.Args) != 4 {
+			bail("forall(j, lo, hi, body)")
+		}
+		toI64 := func(v Value) T {
+			switch a := v.(type) {
+			case Untyped:
+				return x.coerceTo(a, bvSort(64), true).(Sc).T
+			case Sc:
+				return resize(a.T, 64, a.Signed)
+			}
+			bail("forall bound of type %T", v)
+			return T{}
+		}
+		lo, hi := toI64(arg(1)), toI64(arg(2))
+		if opts.pol > 0 {
+			iv := Sc{T: x.vc.input("forall."+id.Name, bvSort(64)), Signed: true}
+			o2 := *opts
+			o2.binds = append(append([]map[string]Value(nil), opts.binds...), map[string]Value{id.Name: iv})
+			body := x.asBool(x.evalExpr(fr, st, n.Args[3], &o2))
+			return Sc{T: mkImplies(mkAnd(bvcmp("bvsle", lo, iv.T), bvcmp("bvslt", iv.T, hi)), body)}
+		}
+		start := len(x.vc.decls)
+		q := x.vc.fresh("q."+id.Name, bvSort(64))
+		o2 := *opts
+		o2.binds = append(append([]map[string]Value(nil), opts.binds...), map[string]Value{id.Name: Sc{T: q, Signed: true}})
+		body := x.asBool(x.evalExpr(fr, st, n.Args[3], &o2))
+		// definitions introduced while evaluating the body may mention the bound variable: inline them
+		newDefs := map[string]string{}
+		for _, d := range x.vc.decls[start+1:] {
+			f := strings.Fields(d)
+			if strings.HasPrefix(d, "(define-fun ") {
+				newDefs[f[1]] = x.vc.bodies[f[1]]
+			} else {
+				bail("forall body introduces a fresh constant (%s): not expressible under a quantifier", f[1])
+			}
+		}
+		bv := "qv_" + sanitize(q.S)
+		txt := body.S
+		for round := 0; round < 64; round++ {
+			changed := false
+			txt = replaceTokens(txt, func(tok string) (string, bool) {
+				if b, ok := newDefs[tok]; ok {
+					changed = true
+					return b, true
+				}
+				return "", false
+			})
+			if !changed {
+				break
+			}
+		}
+		txt = replaceTokens(txt, func(tok string) (string, bool) {
+			if tok == q.S {
+				return bv, true
+			}
+			return "", false
+		})
+		loS := replaceTokens(lo.S, func(string) (string, bool) { return "", false })
+		return Sc{T: T{fmt.Sprintf("(forall ((%s (_ BitVec 64))) (=> (and (bvsle %s %s) (bvslt %s %s)) %s))", bv, loS, bv, bv, hi.S, txt), BoolSort}}
 	case "iff":
 		oz := *opts
 		oz.pol = 0
@@ -1186,4 +1271,30 @@ func (x *Exec) evalGoalClause(fr *frame, st *State, c Clause, opts *evalOpts) T 
 	}
 	o.pol = 1
 	return x.evalBoolClause(fr, st, c, &o)
+}
+
+// replaceTokens maps the symbol tokens of an SMT-LIB term (delimited by blanks and parentheses).
+func replaceTokens(t string, f func(tok string) (string, bool)) string {
+	var sb strings.Builder
+	i := 0
+	for i < len(t) {
+		c := t[i]
+		if c == '(' || c == ')' || c == ' ' || c == '\n' || c == '\t' {
+			sb.WriteByte(c)
+			i++
+			continue
+		}
+		j := i
+		for j < len(t) && t[j] != '(' && t[j] != ')' && t[j] != ' ' && t[j] != '\n' && t[j] != '\t' {
+			j++
+		}
+		tok := t[i:j]
+		if r, ok := f(tok); ok {
+			sb.WriteString(r)
+		} else {
+			sb.WriteString(tok)
+		}
+		i = j
+	}
+	return sb.String()
 }
